@@ -26,6 +26,7 @@ func init() {
 			{"C09.errors-surface", "store and seek errors end a read with an error / EIO", 4, c09ErrorsSurface},
 			{"C09.handle-lock", "the FUSE handle's cursor is used only under the exclusive handle lock", 2, c09HandleLock},
 			{"C09.cursor-consistency", "cursor fields change together; chunk cache invalidated when the chunk id changes", 4, c09Cursor},
+			{"C09.cor-state-needs-size-match", "the copy-on-read variant of the mount trusts a saved state only for a cache file of exactly the indexed size (shared with C10)", 1, c10Truncate},
 		},
 	})
 }
